@@ -22,6 +22,12 @@ CHECKS = {
    text="Every recorded transition of every installed and bundled zone and of synthetic zic zones, and rule-generated transitions of sampled years, are probed on both sides to the nanosecond and compared with an independent reader of the same data; generated POSIX strings extend the rule space.",
    note="Trusted: reftz.rs (validated against zdump in the thorough tier). Excluded and counted: files whose footer contradicts their last transition; generated POSIX rules that spill over a year boundary (jiff documents year clamping).",
    design="DESIGN.md section 3 C03"),
+ "C04": dict(
+   technique="differential/metamorphic: civil classification derived from the reference reader's instant direction (set of instants displaying the civil time) and from jiff's own instant mapping; structured sweep of every gap/fold window edge + proptest",
+   category="exploration",
+   text="Both wall-clock edges of every transition of every zone are probed to the nanosecond, plus the extreme civil datetimes; classification, all four strategies and every civil->zoned entry point are compared with the instant-direction oracle; out-of-range results must be errors, not panics.",
+   note="Trusted: reftz.rs instant direction (C03). Civil times displayed by >= 3 instants are skipped and counted.",
+   design="DESIGN.md section 3 C04"),
 }
 
 NOT_YET = {
